@@ -158,12 +158,13 @@ func ruleC05Siblings(c *Ctx) {
 			sh.call, sh.present = call, true
 			sh.bits, _ = constInt(call.Call.Args[2])
 			// how does result #0 become a counter?
-			for _, r := range *call.Referrers() {
-				ex, ok := r.(*ssa.Extract)
-				if !ok || ex.Index != 0 {
-					continue
+			var follow func(v ssa.Value, depth int)
+			follow = func(v ssa.Value, depth int) {
+				refs := v.Referrers()
+				if refs == nil || depth > 3 {
+					return
 				}
-				for _, rr := range *ex.Referrers() {
+				for _, rr := range *refs {
 					switch y := rr.(type) {
 					case *ssa.Call:
 						if cal := y.Call.StaticCallee(); cal != nil {
@@ -173,7 +174,27 @@ func ruleC05Siblings(c *Ctx) {
 						if countKind(y.Type()) != "" {
 							sh.ctor = "raw conversion to " + countKind(y.Type())
 						}
+					case *ssa.Phi:
+						// `if size > K { size = K }` with K at or above the
+						// counter's capacity leaves the clamped result unchanged
+						okClamp := true
+						for _, e := range y.Edges {
+							if e == v {
+								continue
+							}
+							if k, isK := constUint(e); !isK || k < 1<<32-1 {
+								okClamp = false
+							}
+						}
+						if okClamp {
+							follow(y, depth+1)
+						}
 					}
+				}
+			}
+			for _, r := range *call.Referrers() {
+				if ex, ok := r.(*ssa.Extract); ok && ex.Index == 0 {
+					follow(ex, 0)
 				}
 			}
 		})
